@@ -74,7 +74,7 @@ def do_query(p, q, m, first_daughter):
         if q == "ndecays": return p.number_of_decays
         if q == "modes": return p.list_decay_modes(m)
         if q == "chains": return p.build_decay_chains(m)
-        if q == "chains_stable": return p.build_decay_chains(m, stable_particles=[first_daughter])
+        if q == "chains_stable": return p.build_decay_chains(m, stable_particles=list(first_daughter))
         if q == "expand": return p.expand_decay_modes(m)
         if q == "print":
             with redirect_stdout(io.StringIO()):
@@ -163,7 +163,7 @@ def build(args):
     cz = c07.CZ(rng, base=BASE, conj_matters=True)
     text = "\n".join(c07.render(cz, s) for s in src) + "\n"
     tabs = [cz.name("A"), cz.name("C"), cz.name("Ab")]
-    first_d = cz.name("x")
+    first_d = [cz.name("x"), cz.name("A"), cz.name("Ab")]       # the stable set of "chains_stable": with and without tables
     extra = []        # python-side clauses (white box / fresh-instance structure)
 
     def fresh():
@@ -171,10 +171,13 @@ def build(args):
         if p is None:
             raise Machinery(f"session file does not parse: {err!r}\n{text}")
         return p
+    # three reference answers, each from an instance of its own on which nothing else was asked before (an answer
+    # computed after other queries on the same instance would not be the answer of a *freshly parsed* instance)
     p0 = fresh()
     D0 = [direct(p0, m) for m in tabs]
-    R0 = rest(p0)
-    X0 = derived(p0, p0.list_decay_mother_names())
+    R0 = rest(fresh())
+    px = fresh()
+    X0 = derived(px, px.list_decay_mother_names())
     # copy equals source in everything but the mother; a copy is usable as the source of a CDecay
     def strip(d, m):
         return json.loads(json.dumps(d).replace(json.dumps(m), '"@"')) if d != "missing" else d
@@ -300,7 +303,7 @@ def run(tier, seed, replay_path=None):
                 raise Machinery(f"variant {v} not refuted by {expect}")
         behs = gen_behaviours(wd, o, "trans", 6, view=True)
         paths = gen_behaviours(wd, o, "paths", 3 if deep else 2, view=False,
-                               queries=None if deep else ["chains", "expand", "modes", "print", "aliases", "model_aliases"])
+                               queries=None if deep else ["chains", "chains_stable", "expand", "modes", "print", "aliases"])
         if len(paths) > 40000:
             # all 524 160 three-step behaviours over the 19 queries are enumerated by TLC; 40 000 of them (seeded) are replayed
             o.notes["paths_enumerated"] = len(paths)
